@@ -154,6 +154,7 @@ package consul
 //@ // ---- C14: every generated route command has passed fabio's own parser ---------------------------------------
 //@ func validateCommand
 //@   props C14
+//@   domain trigger
 //@   requires buildReady()
 //@   // builds a scratch table of its own: the writes are to the scratch buffers and to route objects it allocates
 //@   assigns bufOf, scanFailed, builtFrom, mapsOf(map[string]route.Routes), elems(*route.Route), route.Route.Targets, route.Route.wTargets, elems(*route.Target), route.Target.Weight, route.Target.FixedWeight, route.Target.accessRules, elems(interface{}), mapsOf(map[string][]interface{}), ioWrites, lastWrite
